@@ -21,11 +21,13 @@ type WElem struct {
 	Struct TypeID   `json:",omitempty"` // struct / fieldsof: the struct type T
 	Fields []string `json:",omitempty"` // struct: ["*"] or names; fieldsof: names
 	Ptr    bool     `json:",omitempty"` // fieldsof: new(*T) instead of new(T)
+	Paren  bool     `json:",omitempty"` // the element is written in parentheses
 }
 
 type WSet struct {
 	Name  string
 	Elems []WElem
+	Paren bool `json:",omitempty"` // var S = (wire.NewSet(...))
 }
 
 type WInjector struct {
@@ -85,7 +87,7 @@ type WOpts struct {
 }
 
 var WireFeatures = []string{"bind", "bind-value-impl", "value", "ivalue", "struct", "struct-fields", "struct-value-consumer", "fieldsof", "fieldsof-value", "fieldsof-ptr",
-	"sets", "nested-sets", "inline-sets", "inline-sets-deep", "struct-unexported-field", "ext-alias-suffix", "ext-name-differs-from-path", "ext-alias-equals-directory", "composite", "same-name-packages-across-files", "fieldsof-twice", "second-injector", "twin-types-in-same-named-packages", "value-ext-var", "build-in-panic", "struct-keyword-field", "struct-noinject-tag", "struct-no-fields", "named-alias", "wire-import-alias", "wire-legacy-build-tag", "wire-sets-in-var-block", "value-ext-nested-selector", "decoy-constructor-in-migrated-package", "struct-in-ext-package", "fieldsof-in-ext-package", "err", "args", "unused-arg", "multi-file", "ext", "bind-foreign-ctor", "bind-split-set", "multi-result"}
+	"sets", "nested-sets", "inline-sets", "inline-sets-deep", "struct-unexported-field", "ext-alias-suffix", "ext-name-differs-from-path", "ext-alias-equals-directory", "composite", "same-name-packages-across-files", "fieldsof-twice", "second-injector", "twin-types-in-same-named-packages", "value-ext-var", "build-in-panic", "wire-paren", "struct-keyword-field", "struct-noinject-tag", "struct-no-fields", "named-alias", "wire-import-alias", "wire-legacy-build-tag", "wire-sets-in-var-block", "value-ext-nested-selector", "decoy-constructor-in-migrated-package", "struct-in-ext-package", "fieldsof-in-ext-package", "err", "args", "unused-arg", "multi-file", "ext", "bind-foreign-ctor", "bind-split-set", "multi-result"}
 
 func WAllowAll(except ...string) map[string]bool {
 	m := map[string]bool{}
@@ -421,6 +423,7 @@ func GenWire(rt *rapid.T, o WOpts) *WCase {
 		}
 	}
 	g.assemble()
+	g.parens()
 	return g.w
 }
 
@@ -716,6 +719,35 @@ func (g *wgen) genFieldsOf() {
 }
 
 // assemble computes the needed cone of the last unit, arranges sets/files and the injector.
+// parens puts some set initialisers and elements into parentheses.
+func (g *wgen) parens() {
+	var walk func(es []WElem)
+	walk = func(es []WElem) {
+		for i := range es {
+			if es[i].Kind == "inline" {
+				walk(es[i].Inline)
+			}
+			if rapid.IntRange(0, 11).Draw(g.rt, "elemparen") == 11 && g.o.Allow["wire-paren"] {
+				es[i].Paren = true
+				g.w.AddFeature("wire-paren")
+			}
+		}
+	}
+	for fi := range g.w.Files {
+		f := &g.w.Files[fi]
+		for si := range f.Sets {
+			walk(f.Sets[si].Elems)
+			if !f.VarBlock && rapid.IntRange(0, 7).Draw(g.rt, "setparen") == 7 && g.o.Allow["wire-paren"] {
+				f.Sets[si].Paren = true
+				g.w.AddFeature("wire-paren")
+			}
+		}
+		for ii := range f.Injectors {
+			walk(f.Injectors[ii].Elems)
+		}
+	}
+}
+
 func (g *wgen) assemble() {
 	w := g.w
 	if len(g.units) == 0 {
